@@ -52,6 +52,8 @@ def run(ck):
     ck.trusted += ['Coq 8.16.1 kernel + vm_compute', 'Interval 4.6.1 for ln', 'exact Fraction re-statement of the textbook definitions']
     ck.assumptions += ['float32 metric arithmetic compared within 2e-6 relative (+1e-7)', 'sklearn clips log-loss probabilities only below 1e-6 (outside the quantifier)']
     ck.check_theorems()
+    from harness import metricops
+    metricops.check_translation(ck)
     rng = np.random.default_rng(ck.seed + 1616)
     flags = dict(mse=False, rmse=False, mae=False, accuracy=True, brier=False, logloss=False, f1=True, auc=True)
     ctor = dict(mse='Mse', rmse='Rmse', mae='Mae', accuracy='Accuracy', brier='Brier', logloss='Logloss', f1='F1', auc='Auc')
